@@ -66,7 +66,7 @@ func ruleChartLookupFixedFinal(c *core.Ctx) {
 		}
 	}
 	ok := fixedIf != nil && fixedIf.Else == nil && astx.Terminates(info, fixedIf.Body.List)
-	c.Check(ok, "SHAPE/chart-lookup", key+":fixed-segment-final", pos(c, d.Decl), "a matching fixed segment returns on every path", "when a fixed segment matches the next element of the address, the lookup can fall through to the sibling variable segment: an address the fixed branch rejects is accepted through `$variable` (strict mode lets it in, with the wrong default metadata)")
+	c.Shape(fixedIf != nil, ok, "SHAPE/chart-lookup", key+":fixed-segment-final", pos(c, d.Decl), "a matching fixed segment returns on every path", "when a fixed segment matches the next element of the address, the lookup can fall through to the sibling variable segment: an address the fixed branch rejects is accepted through `$variable` (strict mode lets it in, with the wrong default metadata)")
 	// the recursive calls descend into the matched segment's own children with the rest of the address
 	n := 0
 	for _, call := range callsTo(info, d.Decl.Body, named("findAccountSchema")) {
@@ -79,7 +79,7 @@ func ruleChartLookupFixedFinal(c *core.Ctx) {
 		okRec := strings.HasSuffix(a1, ".FixedSegments") && a2 == base+".VariableSegment" && a3 == "account[1:]"
 		c.Check(okRec, "SHAPE/chart-lookup", fmt.Sprintf("%s:descend#%d", key, n), pos(c, call), "descends into the matched segment's children with account[1:]", "the chart lookup does not descend into the matched segment's own fixed and variable children with the remaining address")
 	}
-	c.Floor("SHAPE/chart-lookup", "recursive descents", n, 2)
+	c.FloorShape("SHAPE/chart-lookup", "recursive descents", n, 2)
 }
 
 // ruleFreshDecodeTarget: a value decoded inside a loop is decoded into a variable declared in that
@@ -220,24 +220,50 @@ func ruleBatcherItemErrors(c *core.Ctx) {
 	info := d.Pkg.TypesInfo
 	key := declKey(d)
 	okItem, okCall, badResult := false, false, false
-	for _, call := range callsTo(info, d.Decl.Body, named("SetError")) {
+	isErrTyped := func(e ast.Expr) bool {
+		t := info.TypeOf(e)
+		return t != nil && types.Implements(t, types.Universe.Lookup("error").Type().Underlying().(*types.Interface))
+	}
+	guardedNonNil := func(fs []string, arg string, positive bool) bool {
+		for _, f := range fs {
+			b := nospace(f[1:])
+			if (f[0] == '+') == positive && b == nospace(arg)+"!=nil" {
+				return true
+			}
+			if (f[0] == '+') != positive && b == nospace(arg)+"==nil" {
+				return true
+			}
+		}
+		return false
+	}
+	setErrs := callsTo(info, d.Decl.Body, named("SetError"))
+	setRes := callsTo(info, d.Decl.Body, named("SetResult"))
+	for _, call := range setErrs {
+		if len(call.Args) != 1 {
+			continue
+		}
 		fs := factStrings(info, d.Decl.Body, call.Pos())
 		arg := types.ExprString(call.Args[0])
-		if strings.Contains(arg, "[") && hasFact(fs, arg+" != nil", true) {
-			okItem = true
+		if !guardedNonNil(fs, arg, true) {
+			continue
 		}
-		if arg == "err" && hasFact(fs, "err != nil", true) {
+		// item-level when the error comes out of the per-item slice (directly or through a local)
+		src := types.ExprString(resolveLocal(info, d.Decl.Body, call.Args[0]))
+		if strings.Contains(src, "[") {
+			okItem = true
+		} else {
 			okCall = true
 		}
 	}
-	for _, call := range callsTo(info, d.Decl.Body, named("SetResult")) {
-		if len(call.Args) == 1 && !astx.IsNilExpr(info, call.Args[0]) {
-			badResult = true
+	for _, call := range setRes {
+		if len(call.Args) == 1 && !astx.IsNilExpr(info, call.Args[0]) && isErrTyped(call.Args[0]) {
+			badResult = true // an error value handed over as a result
 		}
 		fs := factStrings(info, d.Decl.Body, call.Pos())
 		neg := false
 		for _, f := range fs {
-			if strings.HasPrefix(f, "-") && strings.Contains(f, "!= nil") && strings.Contains(f, "[") {
+			b := nospace(f[1:])
+			if (f[0] == '-' && strings.HasSuffix(b, "!=nil")) || (f[0] == '+' && strings.HasSuffix(b, "==nil")) {
 				neg = true
 			}
 		}
@@ -245,7 +271,8 @@ func ruleBatcherItemErrors(c *core.Ctx) {
 			badResult = true
 		}
 	}
-	c.Check(okItem && okCall && !badResult, "DOM/batcher-item-errors", key, pos(c, d.Decl), "SetError for a failed call and for each failed item; SetResult(nil) only for items without error", "the batching driver completes a failed item as a result instead of an error: Accept sees no failure, the pipeline advances and persists last_log_id past a log the exporter never stored")
+	recognised := len(setErrs)+len(setRes) > 0
+	c.Shape(recognised, okItem && okCall && !badResult, "DOM/batcher-item-errors", key, pos(c, d.Decl), "SetError for a failed call and for each failed item; SetResult(nil) only for items without error", "the batching driver completes a failed item as a result instead of an error: Accept sees no failure, the pipeline advances and persists last_log_id past a log the exporter never stored")
 }
 
 // ruleStopDriverUnregisters: a driver that was asked to stop is forgotten even when Stop failed.
